@@ -129,9 +129,10 @@ Definition simd_guard {T} (zero : T) (C M : nat) (q : sseq) (a b : nat) (old : s
     let sc := sc_resize zero C old (b - a) ((sq_len q + 1) - M) in
     rbind (kernel (sc_mat sc)) (fun m => Ok (mkScores m (sc_max sc))).
 
-(* Neon::score_f32_rows_into: the same guards WITHOUT the row-range assertion (the
-   repair of the SIMD wrappers was made in avx2.rs and sse2.rs only) *)
-Definition neon_guard {T} (zero : T) (C M : nat) (q : sseq) (a b : nat) (old : sscores T)
+(* Neon::score_f32_rows_into BEFORE the repair of /repo commit 9cd9b52: the same guards
+   without the row-range assertion (kept for the witness C01_neon_range_unguarded_old_refuted;
+   the current wrapper has the assertion and uses [simd_guard]) *)
+Definition neon_guard_old {T} (zero : T) (C M : nat) (q : sseq) (a b : nat) (old : sscores T)
            (kernel : list (list T) -> res (list (list T))) : res (sscores T) :=
   if M =? 0 then Panic 30
   else if sq_wrap q <? M - 1 then Panic 31
@@ -297,10 +298,15 @@ Section Simd.
              (old : sscores T) : res (sscores T) :=
     simd_guard zero C (length pssm) q a b old (lane4_kernel cs C pssm q a b).
 
-  (* Neon::score_f32_rows_into *)
+  (* Neon::score_f32_rows_into (with the row-range assertion of commit 9cd9b52) *)
   Definition neon_rows_into (cs : lane4_consts) (C : nat) (pssm : list (list T)) (q : sseq) (a b : nat)
              (old : sscores T) : res (sscores T) :=
-    neon_guard zero C (length pssm) q a b old (lane4_kernel cs C pssm q a b).
+    simd_guard zero C (length pssm) q a b old (lane4_kernel cs C pssm q a b).
+
+  (* the wrapper as it was before that commit *)
+  Definition neon_rows_into_old (cs : lane4_consts) (C : nat) (pssm : list (list T)) (q : sseq) (a b : nat)
+             (old : sscores T) : res (sscores T) :=
+    neon_guard_old zero C (length pssm) q a b old (lane4_kernel cs C pssm q a b).
 
   (* ---------- dispatcher ---------- *)
 
